@@ -303,7 +303,7 @@ func init() {
 
 	// ------------------------------------------------------------------ C13
 	register("C13", func(c *engine.Ctx) {
-		c.Rule = "random schemas (all features incl. $defs/$ref, titles, numeric- and boolean-looking property names) x every combination of the re-spellings {$id->id, $defs->definitions, #/$defs/->#/definitions/ (and upper-case prefix), type string -> one-element list} x {JSON, block YAML, flow YAML with non-string mapping keys, JSON with every non-ASCII character escaped, the JSON bytes (plain and escaped) under a .yaml name, YAML with every scalar double-quoted}; descriptions, enum members and defaults with text that needs escaping (non-ASCII, apostrophe, quotes, backslash, DEL, U+1F600); plus true vs {} as the anything-schema for additionalProperties / items; the root type name is fixed by --schema-root-type so that the file extension does not enter. All outputs must be byte-identical to the canonical JSON spelling's. Distinct = distinct (re-spelling mask, format, schema shape)."
+		c.Rule = "random schemas (all features incl. $defs/$ref, titles, numeric- and boolean-looking property names) x every combination of the re-spellings {$id->id, $defs->definitions, #/$defs/->#/definitions/ (and upper-case prefix), type string -> one-element list} x {JSON, block YAML, flow YAML with non-string mapping keys, JSON with every non-ASCII character escaped, the JSON bytes (plain and escaped) under a .yaml name, YAML with every scalar double-quoted}; descriptions, enum members and defaults with text that needs escaping (non-ASCII, apostrophe, quotes, backslash, DEL, U+1F600); plus true vs {} as the anything-schema for additionalProperties / items; the root type name is fixed by --schema-root-type so that the file extension does not enter; plus one document whose structurally equal sites (a nested path colliding with a flat name, an allOf branch, array items) spell the same pointer differently (#/$defs/, #/definitions/, #/$Defs/, #/DEFINITIONS/; all 16 pairs under either container keyword). All outputs must be byte-identical to the canonical JSON spelling's. Distinct = distinct (re-spelling mask, format, schema shape)."
 		c.Proofs([]string{"GJS.Props.C13", "GJS.Props.C10"}, []string{
 			"GJS.Props.C13.type_string_or_list", "GJS.Props.C13.true_is_empty_schema", "GJS.Props.C13.id_fallback", "GJS.Props.C13.defs_fallback",
 			"GJS.Props.C10.extractRef_prefix_equiv",
@@ -391,6 +391,45 @@ func init() {
 			}
 		}
 		c.Programs += n
+		// Mixed spellings inside ONE document: structurally equal nodes that share one Go declaration (a nested path
+		// colliding with a flat name; the same definition name in two files) each contain a reference, and the
+		// two sites spell the pointer differently (#/$defs/, #/definitions/, #/$Defs/), under either container
+		// keyword: the output must equal that of the uniformly spelled document.
+		ptrs := []string{"#/$defs/Country", "#/definitions/Country", "#/$Defs/Country", "#/DEFINITIONS/Country"}
+		mixed := func(container, p1, p2 string) []byte {
+			addr := func(ptr string) sgen.M {
+				return sgen.M{"type": "object", "properties": sgen.M{"street": sgen.M{"type": "string"}, "country": sgen.M{"$ref": ptr}}, "required": []any{"country"}}
+			}
+			return core.MustJSON(sgen.M{"$id": "urn:c13", "type": "object", container: sgen.M{"Country": sgen.M{"type": "string", "minLength": 2, "maxLength": 2}},
+				"properties": sgen.M{"billing": sgen.M{"type": "object", "properties": sgen.M{"address": addr(p1)}}, "billingAddress": addr(p2),
+					"ship": sgen.M{"allOf": []any{sgen.M{"$ref": p1}}}, "shipTo": sgen.M{"type": "array", "items": sgen.M{"$ref": p2}}}})
+		}
+		cfgM := core.DefaultCfg()
+		cfgM.RootType = "Order"
+		refOut := genSrc(filepath.Join(tmp, "mixed", "ref"), "schema.json", mixed("$defs", ptrs[0], ptrs[0]), cfgM, "urn:c13")
+		if strings.HasPrefix(refOut, "ERR") {
+			fails++
+			c.Fail("oracle", "the mixed-spelling base document does not generate: "+clip(refOut, 300), M{"kind": "relational", "canonical": string(mixed("$defs", ptrs[0], ptrs[0]))}, false)
+		} else {
+			for _, container := range []string{"$defs", "definitions"} {
+				for a, p1 := range ptrs {
+					for b, p2 := range ptrs {
+						content := mixed(container, p1, p2)
+						out := genSrc(filepath.Join(tmp, "mixed", fmt.Sprintf("%s-%d-%d", container[:2], a, b)), "schema.json", content, cfgM, "urn:c13")
+						c.Eval(fmt.Sprintf("mixed|%s|%d|%d", container, a, b))
+						c.Count("respelling", "mixed pointer spellings in one document")
+						if out != refOut {
+							fails++
+							if fails <= 3 {
+								c.Fail("oracle", fmt.Sprintf("two sites of one document spell the same pointer differently (%s and %s, under %s): the generated code differs from the uniformly spelled document", p1, p2, container),
+									M{"kind": "relational", "cfg": cfgM, "canonical": string(mixed("$defs", ptrs[0], ptrs[0])), "respelled": string(content), "canonical_output": clip(refOut, 2000), "respelled_output": clip(out, 2000)}, false)
+							}
+						}
+					}
+				}
+			}
+			c.Programs += 32
+		}
 	})
 
 	// ------------------------------------------------------------------ C16
